@@ -65,7 +65,7 @@ def bounds_search(chk, rep, sites, rows):
                 chk.search_case("call_site_bounds", alen >= 1, what=f"{label}: {name.split('.')[-1]} needs at least one coefficient", data=dict(site=label, vector_length=alen), nontrivial=True)
 
 
-def jit_vs_interpreter(chk, r, rep, n_points, n_runs, max_pto):
+def jit_vs_interpreter(chk, r, rep, n_points, n_runs, max_pto, n_cells=60):
     names = sorted(rep["kernels"])
     # also the kernels the translator could not copy, as long as they take (z) or (z, args)
     extra = [k for k, v in rep["untranslated"].items() if v["sig"] in ("f8(f8,f8[:])", "f8(f8)") and "from_distr" not in k]
@@ -81,8 +81,7 @@ def jit_vs_interpreter(chk, r, rep, n_points, n_runs, max_pto):
             na = 0 if t[1] == "-" else int(t[1]) + 1
         else:
             na = 2
-        for _ in range(n_points):
-            z = float(r.choice([r.uniform(0.02, 0.98), r.uniform(0.001, 0.1), r.uniform(0.9, 0.999)]))
+        for z in [float(r.choice([r.uniform(0.02, 0.98), r.uniform(0.001, 0.1), r.uniform(0.9, 0.999)])) for _ in range(n_points)] + ([0.5, 0.25] if two or n in idx else [2.0, 0.5, -1.0, 1.0, 0.0, -2.0, 0.25, 4.0]):
             reqs.append(dict(name=n, two=two, z=z, args=corr_kernels.sample_args(r, na) if two else []))
     for c in ("sing_from_distr_coeffs", "loc_from_distr_coeffs"):
         for _ in range(n_points):
@@ -96,7 +95,19 @@ def jit_vs_interpreter(chk, r, rep, n_points, n_runs, max_pto):
         tmc = r.choice([0, 0, 1]) if pto == 0 else 0
         name = f"{kind}_{r.choice(['total', 'light', 'charm'])}"
         runs.append(dict(theory=cards.theory(PTO=pto, FNS=scheme, NfFF=nfff, TMC=tmc), observables=cards.obs({name: [dict(x=float(r.choice([0.05, 0.3])), Q2=float(r.choice([10.0, 200.0])))]}, prDIS=process, ProjectileDIS="neutrino" if process == "CC" else "electron", interpolation_xgrid=cards.default_grid(8, 1e-2))))
-    req = dict(kernels=reqs, runs=runs)
+    # every kind of kernel the Combiner can hand out, evaluated at z = 0.5, 0.25, 0.8 in both modes
+    # (z = 0.5 makes 1/(1-z) = 2, 1-z = z, ...: branch points of the special functions)
+    cells = []
+    for kind in cards.SFS:
+        for pr, proj in (("NC", "electron"), ("CC", "neutrino"), ("EM", "positron")):
+            if pr == "CC" and kind in ("g1", "gL", "g4"):
+                continue
+            for fns, nfff in (("ZM-VFNS", 4), ("FFNS", 3), ("FFN0", 3), ("FONLL-FFN0", 3)):
+                for fl in ("total", "charm"):
+                    cells.append((kind, fl, pr, proj, fns, nfff, max_pto + 1 if max_pto < 2 else 2, 0))
+    if len(cells) > n_cells:
+        cells = r.sample(cells, n_cells)
+    req = dict(kernels=reqs, runs=runs, cells=[list(c) for c in cells])
     # a *fresh* cache directory: numba does not invalidate the cached machine code of a caller when
     # only a callee's source changes, so a persistent cache could hide a changed kernel
     import shutil
@@ -118,6 +129,21 @@ def jit_vs_interpreter(chk, r, rep, n_points, n_runs, max_pto):
         ok = (np.isnan(va) and np.isnan(vb)) or va == vb or abs(va - vb) <= 1e-10 * max(1.0, abs(va))
         d = dict(kernel=rq["name"], z=rq["z"], args=rq["args"], interpreter=va, jit=vb)
         chk.search_case("kernel_jit_vs_interpreter", ok, what=f"{rq['name']}: compiled value differs from interpreted value", data=d, sample=d)
+    for cell, ca, cb in zip(cells, a.get("cells", []), b.get("cells", [])):
+        d = dict(cell=cell, interpreter=ca["outcome"], jit=cb["outcome"], n_values=len(ca["values"]))
+        bad = None
+        if ca["outcome"].split(":")[0] != cb["outcome"].split(":")[0]:
+            bad = f"outcome differs: interpreted {ca['outcome']!r}, compiled {cb['outcome']!r}"
+        elif len(ca["values"]) != len(cb["values"]):
+            bad = "number of evaluated parts differs"
+        else:
+            for j, (va, vb) in enumerate(zip(ca["values"], cb["values"])):
+                fa, fb = float(va), float(vb)
+                if not ((np.isnan(fa) and np.isnan(fb)) or fa == fb or abs(fa - fb) <= 1e-9 * max(1.0, abs(fa))):
+                    bad = f"value #{j}: interpreted {fa!r}, compiled {fb!r}"
+                    break
+        d["problem"] = bad
+        chk.search_case("combiner_kernels_jit_vs_interpreter", bad is None, what=f"{cell[0]}_{cell[1]} {cell[2]} {cell[4]} NfFF={cell[5]} PTO={cell[6]}: {bad}", data=d, sample=d if cell[4] == "FFN0" and cell[2] == "CC" else None, nontrivial=len(ca["values"]) > 0)
     for rq, ra, rb in zip(runs, a["runs"], b["runs"]):
         name = next(iter(rq["observables"]["observables"]))
         d = dict(obs=name, FNS=rq["theory"]["FNS"], PTO=rq["theory"]["PTO"], TMC=rq["theory"]["TMC"], process=rq["observables"]["prDIS"])
@@ -149,7 +175,7 @@ def run(tier):
     common.lean_proof_step(chk, "YadismModel.Properties.C18", thorough=thorough)
     corr_kernels.run_kernels(chk, r, 40 if thorough else 4, report=rep)
     bounds_search(chk, rep, sites, rows)
-    jit_vs_interpreter(chk, r, rep, 12 if thorough else 2, 24 if thorough else 4, 2 if thorough else 1)
+    jit_vs_interpreter(chk, r, rep, 12 if thorough else 2, 24 if thorough else 4, 2 if thorough else 1, n_cells=400 if thorough else 70)
     chk.assumptions += [
         "PARTIAL: bounds safety of every translated kernel at every live call site is a kernel-checked theorem over a table regenerated from the source each run; agreement of LLVM-compiled code with interpreter semantics is a compiler property and is only tested (Lean Float evaluation of the generated term / interpreter / JIT at sampled arguments, and whole runs in both modes)",
         "kernels the translator cannot copy (loops, complex arithmetic: reported in coverage.translator.untranslated) are covered by the JIT-vs-interpreter test only; sing/loc_from_distr_coeffs are loops over their own argument vector (bounds-safe by construction, loc needs length >= 1: checked per call site)",
